@@ -47,22 +47,28 @@ InitValues ==
                    Mk(<< [name |-> B, pd |-> "object", cells |-> cs] >>, n), TRUE, FALSE, {})
 
 (* container: presence, strict, ordered, add_missing_columns + defaults, coercion *)
-CCells(lab, v) == CASE lab = A  -> (IF v = 1 THEN [name |-> A, pd |-> "int64", cells |-> <<iv(1), iv(2)>>]
+CCells(lab, v) == CASE lab = A  -> (IF v % 10 = 1 THEN [name |-> A, pd |-> "int64", cells |-> <<iv(1), iv(2)>>]
                                     ELSE [name |-> A, pd |-> "float64", cells |-> <<fv(2), fv(3)>>])
-                    [] lab = B  -> [name |-> B, pd |-> "float64", cells |-> <<fv(2), NA>>]
+                    [] lab = B  -> (IF v < 10 THEN [name |-> B, pd |-> "float64", cells |-> <<fv(2), NA>>]
+                                    ELSE [name |-> B, pd |-> "Int64", cells |-> <<iv(2), NA>>])   \* nullable integers on both back ends
                     [] lab = SC -> [name |-> SC, pd |-> "int64", cells |-> <<iv(0), iv(0)>>]
 LabelSeqs == { <<>>, <<A>>, <<A, B>>, <<B, A>>, <<SC, A, B>>, <<A, SC>>, <<B>>, <<A, SC, B>> }
 InitContainer ==
   \E labs \in LabelSeqs : \E va \in {1, 2} :
-  \E ca \in BOOLEAN : \E db \in {NA, fv(1)} : \E nb \in BOOLEAN : \E rb \in BOOLEAN :
+  \E ca \in BOOLEAN : \E dflt \in BOOLEAN : \E nb \in BOOLEAN : \E rb \in BOOLEAN :
   \E sf \in {"no", "yes", "filter"} : \E od \in BOOLEAN : \E am \in BOOLEAN : \E lz \in {TRUE} :
-     st = Start([BaseSchema EXCEPT
+  \E kb \in { <<B, FALSE>>, <<rv(8), TRUE>> } :             \* column b declared by name, or by the regex "b$"
+  \E tb \in { <<"float64", 0>>, <<"Int64", 10>> } :          \* column b: floats, or nullable integers
+     /\ (kb[2] => rb)        \* an OPTIONAL regex column is not validated at all by the polars back end (known finding
+                             \* PolarsOptionalRegexColumnNotValidated): outside the neutral vocabulary
+     /\ st = Start([BaseSchema EXCEPT
                    !.cols = << [BaseCol EXCEPT !.key = A, !.dtype = "int64", !.coerce = ca,
                                                !.checks = <<Chk("ge", <<iv(1)>>)>>],
-                                [BaseCol EXCEPT !.key = B, !.dtype = "float64", !.default = db,
+                                [BaseCol EXCEPT !.key = kb[1], !.regex = kb[2], !.dtype = tb[1],
+                                               !.default = IF ~dflt THEN NA ELSE IF tb[1] = "float64" THEN fv(1) ELSE iv(1),
                                                !.nullable = nb, !.required = rb] >>,
                    !.strict = sf, !.ordered = od, !.addmiss = am],
-                Mk([ i \in 1..Len(labs) |-> CCells(labs[i], va) ], 2), lz, FALSE, {})
+                Mk([ i \in 1..Len(labs) |-> CCells(labs[i], va + tb[2]) ], 2), lz, FALSE, {})
 
 Init == IF SliceName = "values" THEN InitValues ELSE InitContainer
 Spec == Init /\ [][Next]_st
@@ -87,16 +93,23 @@ PolarsAltSchema(S) ==
 (* from the frame makes polars die with ColumnNotFoundError; add_missing_columns selects only the declared *)
 (* columns, dropping undeclared ones                                                                      *)
 DefaultApplies(S, D) ==
-  \E i \in 1..Len(S.cols) : ~IsNull(S.cols[i].default) /\
-     \E p \in 1..Len(D.cols) : D.cols[p].name = S.cols[i].key /\ HasNull(D.cols[p].cells)
+  \E i \in 1..Len(S.cols) : ~IsNull(S.cols[i].default) /\ S.cols[i].dtype = "float64" /\
+     \E p \in 1..Len(D.cols) : Matches(S.cols[i], D.cols[p].name) /\ HasNull(D.cols[p].cells)
+(* a required regex column that matches no column of the frame is an error on pandas (INVALID_COLUMN_NAME) and *)
+(* silently accepted on polars: polars treats it like required=False                                            *)
+RegexNoMatchApplies(S, D) ==
+  \E i \in 1..Len(S.cols) : S.cols[i].regex /\ S.cols[i].required /\ ~\E p \in 1..Len(D.cols) : Matches(S.cols[i], D.cols[p].name)
+RegexOptional(S) == [S EXCEPT !.cols = [ i \in 1..Len(@) |-> IF @[i].regex THEN [@[i] EXCEPT !.required = FALSE] ELSE @[i] ]]
 MissingLeakApplies(S, D) ==
-  \E i \in 1..Len(S.cols) : ~Present(D, S.cols[i].key) /\ (S.cols[i].coerce \/ S.coerce \/ ~IsNull(S.cols[i].default))
+  \E i \in 1..Len(S.cols) : ~(\E p \in 1..Len(D.cols) : Matches(S.cols[i], D.cols[p].name))
+                             /\ (S.cols[i].coerce \/ S.coerce \/ ~IsNull(S.cols[i].default))
 AddMissingDropsApplies(S, D) ==
   S.addmiss /\ Absent(S, D) # <<>> /\ \E p \in 1..Len(D.cols) : ~Declared(S, D, D.cols[p].name)
 PolarsDevs(S, D) ==
   (IF UniqueAllApplies(S, D) THEN {"PolarsUniqueReportsAllMembers"} ELSE {})
   \cup (IF AltApplies(S) THEN {"PolarsStrMatchesTopLevelAlt"} ELSE {})
   \cup (IF DefaultApplies(S, D) THEN {"PolarsDefaultFillsNanOnly"} ELSE {})
+  \cup (IF RegexNoMatchApplies(S, D) THEN {"PolarsRegexNoMatchAccepted"} ELSE {})
   \cup (IF MissingLeakApplies(S, D) THEN {"PolarsMissingColumnLeak"} ELSE {})
   \cup (IF AddMissingDropsApplies(S, D) THEN {"PolarsAddMissingDropsUndeclared"} ELSE {})
 Pred(s) == [kind |-> s.out.kind,
@@ -114,5 +127,5 @@ Emit ==
                                     THEN {"DuplicateNullsNotReported"} ELSE {},
                     polars_devs |-> PolarsDevs(st.S, st.inp0),
                     (* exact alternative prediction for the two value-level deviations *)
-                    polars_asis |-> Pred(Run(Start(PolarsAltSchema(WithReportAll(st.S)), st.inp0, st.lazy, FALSE, {})))]))
+                    polars_asis |-> Pred(Run(Start(RegexOptional(PolarsAltSchema(WithReportAll(st.S))), st.inp0, st.lazy, FALSE, {})))]))
 =============================================================================
